@@ -1,5 +1,6 @@
 import ASV.Drv.J
 import ASV.Spec.Modules
+import ASV.Model.ModulesHmm
 namespace ASV.Drv.C14
 open Lean ASV ASV.Drv ASV.Modules
 abbrev Mod := ASV.Modules.Module
@@ -134,6 +135,32 @@ def handleLabel (j : Json) : R Json := do
                      c.isFusedStarter, c.isPksSpecific, c.isNrpsSpecific].map fun (b : Bool) => toJson b)),
     ("subtype", match c.subtype with | some s => Json.str s | none => Json.null)])]
 
+/-- `[hit_id, start, end, evalue, bitscore, [children…]]` -/
+partial def hmmOfJson (j : Json) : R Hmm := do
+  return .mk (← asStr (← idx j 0)) (← asInt (← idx j 1)) (← asInt (← idx j 2)) (← asInt (← idx j 3))
+             (← asInt (← idx j 4)) (← listOf hmmOfJson (← idx j 5))
+
+partial def hmmJsonToJson : HmmJson → Json
+  | .mk i s e ev bs internal =>
+    jArr [Json.str i, toJson s, toJson e, toJson ev, toJson bs,
+          match internal with | none => Json.null | some l => jArr (l.map hmmJsonToJson)]
+
+partial def hmmToJson : Hmm → Json
+  | .mk i s e ev bs l => jArr [Json.str i, toJson s, toJson e, toJson ev, toJson bs, jArr (l.map hmmToJson)]
+
+def handleHmm (j : Json) : R Json := do
+  let raw ← hmmOfJson (← fld j "tree")
+  let locus ← strF j "locus"
+  let model : Except Err Json := do
+    let h ← Hmm.validate raw
+    let reloaded ← Hmm.fromJson h.toJson
+    let comp : Json := match mkComp locus h.domain with
+      | .ok c => compToJson c
+      | .error e => jObj [("err", Json.str (errStr e))]
+    pure (jObj [("names", jStrs h.detailedNames), ("json", hmmJsonToJson h.toJson),
+                ("reloaded", hmmToJson reloaded), ("tree", hmmToJson h), ("wf", toJson h.WF), ("component", comp)])
+  return jObj [("model", exceptJson model)]
+
 def handle (j : Json) : R Json := do
   match (← strF j "kind") with
   | "build" => handleBuild j
@@ -141,6 +168,7 @@ def handle (j : Json) : R Json := do
   | "pair" => handlePair j
   | "chain" => handleChain j
   | "label" => handleLabel j
+  | "hmm" => handleHmm j
   | k => throw s!"C14: unknown kind {k}"
 
 end ASV.Drv.C14
